@@ -126,7 +126,7 @@ def run_batch(b):
 
 def main(tier, seed):
     t0 = time.time()
-    maxlen = 5 if tier == "quick" else 7
+    maxlen = 5 if tier == "quick" else 8
     batches = []
     for L in range(1, maxlen + 1):
         if L <= 4:
@@ -135,12 +135,15 @@ def main(tier, seed):
             plen = 2 if L >= 6 else 1
             pres = ["".join(p) for p in itertools.product("0123456789", repeat=plen)]
             chunk = max(1, len(pres) // (16 if L < 7 else 50))
+            if L >= 8:
+                pres = ["".join(p) for p in itertools.product("0123456789", repeat=3)]
+                chunk = 5
             for i in range(0, len(pres), chunk):
                 batches.append({"kind": "exhaustive", "L": L, "prefixes": pres[i:i + chunk]})
-    nrand = 40000 if tier == "quick" else 200000
+    nrand = 40000 if tier == "quick" else 2000000
     for i in range(8):
         batches.append({"kind": "random", "seed": seed * 1000 + i, "n": nrand // 8})
-    batches.append({"kind": "avp", "seed": seed, "per_len": 20 if tier == "quick" else 400})
+    batches.append({"kind": "avp", "seed": seed, "per_len": 20 if tier == "quick" else 4000})
     acc = harness.run_workers("checks.c18_tbcd", "run_batch", batches, 900)
     distinct = acc.extra.pop("distinct_judged", 0)
     acc.sigs = set()
